@@ -75,14 +75,64 @@ def pair_event(eng, i, a, b):
     return {'id': i, 'act': 'pair', 'a': trace.enc(a), 'b': trace.enc(b), 'r': r, 'py': py_oracle(a, b)}
 
 
+MATH1 = ['bitwiseNot', 'abs', 'sign', 'isInteger', 'isNumber', 'int']
+MATH2 = ['bitwiseAnd', 'bitwiseOr', 'bitwiseXor', 'shiftBitsLeft', 'shiftBitsRight', 'max', 'min', 'pow', 'round']
+MATH_CORPUS = [None, True, False, 0, 1, -1, 2, 3, -3, 5, -5, 6, 7, -8, 10, 12, 15, 25, -25, 35, 45, 255, -256, 1000, -1000, 1023, 12345, -12355, 99999999,
+               2 ** 31, -2 ** 63, 10 ** 20, 2.5, -0.0, 0.5, '', ' 12 ', '-7', '+3', '007', '1_0', 'x', 'ab', ' ', '12a', '9' * 30]
+
+
+def math_events(eng, start, rng, quick):
+    import yaql
+    st = {}
+
+    def call(fn, args):
+        if (fn, len(args)) not in st:
+            st[(fn, len(args))] = eng.engine('%s(%s)' % (fn, ', '.join('$a%d' % i for i in range(len(args)))))
+        c = eng.ctx.create_child_context()
+        for i, a in enumerate(args):
+            c['a%d' % i] = a
+        return st[(fn, len(args))].evaluate(context=c)
+    evs = []
+    objs = {}
+    i = start
+
+    def add(fn, model_fn, args):
+        nonlocal i
+        if fn in ('shiftBitsLeft', 'pow', 'round') and type(args[1]) is int and abs(args[1]) > 400:
+            return      # (the host would really compute a number of that size)
+        evs.append({'id': i, 'act': 'math', 'fn': model_fn, 'args': [trace.enc(a) for a in args], 'r': enc_out(lambda: call(fn, args))})
+        objs[i] = ('math', fn) + tuple(args)
+        i += 1
+    for fn in MATH1:
+        for a in MATH_CORPUS:
+            add(fn, fn, [a])
+    small = [x for x in MATH_CORPUS if type(x) is int and abs(x) <= 1023]
+    for fn in MATH2:
+        pool = [(a, b) for a in MATH_CORPUS for b in MATH_CORPUS]
+        if quick:
+            pool = rng.sample(pool, 500) + [(a, b) for a in small[:12] for b in small[:12]]
+        for a, b in pool:
+            add(fn, fn, [a, b])
+    for _ in range(300 if quick else 3000):
+        add('pow', 'powmod', [rng.choice(small + [None, True, 2.5]), rng.choice([0, 1, 2, 3, 5, 10, 33, 60, -1]), rng.choice([1, 2, 3, 7, 10, 97, 1000, 0, -7, 2.0])])
+        a, b = rng.randint(-1000, 1000), rng.randint(-1000, 1000)
+        fn = rng.choice(['bitwiseAnd', 'bitwiseOr', 'bitwiseXor'])
+        add(fn, fn, [a, b])
+        add('round', 'round', [rng.randint(-10 ** 7, 10 ** 7) * 5, rng.randint(-7, 2)])
+        fn = rng.choice(['shiftBitsLeft', 'shiftBitsRight'])
+        add(fn, fn, [rng.randint(-1000, 1000), rng.randint(-2, 20)])
+    return evs, objs
+
+
 DISPATCH_MC = '''---- MODULE MC_Scalars ----
-EXTENDS Scalars
+EXTENDS Math
 VARIABLES op, ka, kb, d
 Init == /\\ op \\in Ops \\cup {"unary"} /\\ ka \\in Kinds /\\ kb \\in Kinds
         /\\ d = IF op = "unary" THEN UnaryDispatch(ka) ELSE Dispatch(op, ka, kb)
 Next == UNCHANGED <<op, ka, kb, d>>
 Spec == Init /\\ [][Next]_<<op, ka, kb, d>>
 Sanity == LimbSanity((0 - 12)..12 \\cup {9999, 10000, 10001, 0 - 10000, 20000})
+MathSanity == BitSanity((0 - 17)..17 \\cup {255, 256, 0 - 256, 1000, 0 - 1000, 1023}) /\\ RoundSanity((0 - 60)..60) /\\ PowSanity((0 - 4)..4)
 ====
 '''
 
@@ -94,7 +144,7 @@ def run(rep, tier, seed, keep=False):
         eng = Eng()
         # ---- M + G: limb sanity and dispatch table
         dump = wd + '/disp'
-        r = tlc.ok(tlc.run('MC_Scalars', 'SPECIFICATION Spec\nINVARIANT Sanity\n', wd, modules={'MC_Scalars': DISPATCH_MC},
+        r = tlc.ok(tlc.run('MC_Scalars', 'SPECIFICATION Spec\nINVARIANT Sanity\nINVARIANT MathSanity\n', wd, modules={'MC_Scalars': DISPATCH_MC},
                            workers=4, dump=dump))
         rep.tlc('Scalars/M LimbSanity + G dispatch table', r)
         nd = 0
@@ -156,7 +206,22 @@ def run(rep, tier, seed, keep=False):
             events.append({'id': i, 'act': 'triple', 'lt': m})
             objs[i] = ('triple', t)
             i += 1
+        # ---- beyond the listed property: the integer side of the math library (Math.tla); disagreements are notes
+        mev, mobjs = math_events(eng, i, rng, quick)
+        events.extend(mev)
+        objs.update(mobjs)
         rej = trace.validate(rep, wd, 'Trace_Scalars', events, 'Trace_Scalars/V')
+        math_skipped = 0
+        math_div = 0
+        for eid, clause in list(rej):
+            if objs[eid][0] == 'math':
+                rej.remove((eid, clause))
+                if clause.startswith('skip:'):
+                    math_skipped += 1
+                else:
+                    math_div += 1
+                    rep.note('math library differs from Math.tla: %s%r gave %s (%s)' % (objs[eid][1], objs[eid][2:], json.dumps(events[eid]['r'])[:80], clause))
+        rep.extra['math_library'] = {'calls': len(mev), 'judged': len(mev) - math_skipped, 'unmodelled': math_skipped, 'divergences': math_div}
         for eid, clause in rej:
             o = objs[eid]
             ev = events[eid]
@@ -164,7 +229,7 @@ def run(rep, tier, seed, keep=False):
                           '%s %r: clause %s; results %s' % (o[0], o[1:], clause, json.dumps(ev.get('r', ev.get('lt')))[:600]),
                           {'kind': o[0], 'operands': [repr(x) for x in o[1:]], 'clause': clause})
         rep.traces += len(events)
-        rep.evaluations += len(events) * 13
+        rep.evaluations += (len(events) - len(mev)) * 13 + len(mev)
         rep.nontrivial = len(corpus) * len(corpus)
         rep.sample(events[7])
         rep.sample(events[len(corpus) * 20 + 22])
